@@ -110,6 +110,40 @@ Theorem C19_crash_in_common_metadata :
 Proof. exact crash_in_common_metadata. Qed.
 Print Assumptions C19_crash_in_common_metadata.
 
+(* ---- the relation the tie evaluates: "parts first, summary files last", the two summary files in
+   EITHER order (a fresh open reads _metadata only, so which of the two is rewritten first does not
+   matter for the property; `safe_trace` above is the special case the code implements today).
+   check_safe_trace_sym is a boolean function, safe_trace_sym its truth: decidable by construction. *)
+Theorem C19_strict_is_either_order : forall refs tr,
+  check_safe_trace refs tr = true -> wf_writes [] tr = true -> safe_trace_sym refs tr.
+Proof. exact strict_is_sym. Qed.
+Print Assumptions C19_strict_is_either_order.
+
+Theorem C19_crash_safe_either_order :
+  forall (R : Type) (parse_md : bytes -> option (list path)) (decode : bytes -> list (option bytes) -> R)
+         (refs : list path) (tr tr1 : list call) (c : call) (tr2 : list call) (s s' : fs),
+    refs_of parse_md s = Some refs ->
+    safe_trace_sym refs tr -> tr = tr1 ++ c :: tr2 ->
+    existsb is_md_open tr1 = false -> (is_md_open c = false \/ s' = run_trace tr1 s) ->
+    crash_at tr1 c s s' ->
+    read_dataset R parse_md decode s' = read_dataset R parse_md decode s
+    /\ forall q, In q (md_name :: refs) -> lookup q s' = lookup q s.
+Proof. exact crash_safe_sym. Qed.
+Print Assumptions C19_crash_safe_either_order.
+
+Theorem C19_existing_untouched_either_order : forall refs tr, safe_trace_sym refs tr ->
+  (forall s q, In q refs -> lookup q (run_trace tr s) = lookup q s)
+  /\ (forall p t, In (OpenW p t) tr -> ~ In p refs)
+  /\ (forall c, In c tr ->
+        match c with Rename a b => ~ In a refs /\ ~ In b refs | Remove p => ~ In p refs | _ => True end).
+Proof. exact sym_existing_untouched. Qed.
+Print Assumptions C19_existing_untouched_either_order.
+
+Theorem C19_append_is_safe_either_order : forall refs partitioned rgs md cmd tr,
+  append_trace refs partitioned rgs md cmd = Some tr -> good_dirs rgs = true -> safe_trace_sym refs tr.
+Proof. exact append_is_safe_sym. Qed.
+Print Assumptions C19_append_is_safe_either_order.
+
 (* non-vacuity: a dataset {_metadata, part.0.parquet}; the append writes part.1.parquet, then the
    summary.  The trace is safe; a short write into the new part (crash in call 3) leaves every old
    file as it was; reusing the name part.0.parquet is rejected by the checker. *)
@@ -129,6 +163,20 @@ Example C19_nonvacuous :
       = [Some [1;2;3]; Some [9]; Some [7;7]; Some [5;6;8;8]]%N)
   /\ map (fun q => lookup q (run_trace (ex_tr ex_p1) ex_fs)) [md_name; ex_p0; ex_p1]
      = [Some [1;2;3;4]; Some [7;7]; Some [5;6;8;8;8;8]]%N.
+Proof. vm_compute. repeat split; reflexivity. Qed.
+
+(* the same trace with the two summary files written in the other order: outside the strict relation,
+   inside the relaxed one; writing a part file after a summary file is outside both *)
+Definition ex_tr_swapped (p : path) : list call :=
+  [OpenW p true; Write p [5;6]%N; Close p;
+   OpenW cmd_name true; Write cmd_name [9]%N; Close cmd_name;
+   OpenW md_name true; Write md_name [1;2;3;4]%N; Close md_name].
+Example C19_nonvacuous_either_order :
+  check_safe_trace [ex_p0] (ex_tr_swapped ex_p1) = false
+  /\ check_safe_trace_sym [ex_p0] (ex_tr_swapped ex_p1) = true
+  /\ check_safe_trace_sym [ex_p0] (ex_tr ex_p1) = true
+  /\ check_safe_trace_sym [ex_p0] (ex_tr ex_p0) = false
+  /\ check_safe_trace_sym [ex_p0] (ex_tr_swapped ex_p1 ++ [OpenW ex_p1 true; Close ex_p1]) = false.
 Proof. vm_compute. repeat split; reflexivity. Qed.
 
 (* the model trace of an append of two row groups into the partition directories "k=0", "k=1" of a
